@@ -644,6 +644,12 @@ def run_impl(case):
                 out = {"ok": _run_case(case)}
             except BaseException as e:  # reported to the parent, which raises (harness error)
                 out = {"err": "%s: %s" % (type(e).__name__, e), "tb": traceback.format_exc()[-1500:]}
+            try:
+                import anchorcov
+
+                out["cov"] = anchorcov.drain()
+            except Exception:
+                pass
             with os.fdopen(w, "w") as f:
                 json.dump(out, f)
             status = 0
@@ -656,6 +662,10 @@ def run_impl(case):
     if not data:
         raise RuntimeError("case child process died without an answer")
     out = json.loads(data)
+    if out.get("cov"):
+        import anchorcov
+
+        anchorcov.merge(out["cov"])
     if "err" in out:
         if out["err"].startswith("HarnessTimeout"):
             _broken.append(out["err"])
